@@ -72,7 +72,7 @@ ERRORS = {"TypeError": ".type", "ValueError": ".value", "ZeroDivisionError": ".z
 
 LEAN_TY = {"int": "Int", "nat": "Nat", "num": "PyNum", "val": "PyVal", "optval": "Option PyVal", "poly": "ZPoly",
            "bool": "Bool", "dict": "MPoly PyNum", "fn_num": "PyNum → PyNum", "fn_poly2": "ZPoly → ZPoly → ZPoly",
-           "hashed": "Bool"}
+           "hashed": "Bool", "polyref": "(Option ZPoly)"}
 
 
 def lname(n):
@@ -129,6 +129,11 @@ def coerce(e, ty, node=None):
             return E("(PyVal.num (PyNum.int %s))" % e.lean, "val", binds=e.binds)
     if e.ty == "int" and ty == "num":
         return E("(PyNum.int %s)" % e.lean, "num", binds=e.binds)
+    if e.ty == "expo" and ty == "int":
+        # an exponent in the position of a POWER (dictionary key): only its integral value matters (2.0 and 2 are one key)
+        return E(e.lean, "int", binds=e.binds)
+    if e.ty == "poly" and ty == "polyref":
+        return E("(some %s)" % e.lean, "polyref", binds=e.binds)      # a NEW instance (`none` = the object `self` itself)
     if e.ty == "num" and ty == "val":
         return E("(PyVal.num %s)" % e.lean, "val", binds=e.binds)
     if e.ty == "dict" and ty == "pairs" or e.ty == "pairs" and ty == "dict":
@@ -151,7 +156,7 @@ def sub_key(node):
 
 ISINST = {  # type of the value -> the classes it is an instance of (every other class of the vocabulary: not)
     "numlist": {"list"}, "pairs": {"dict"}, "dict": {"dict"}, "poly": {"Poly"}, "none": set(),
-    "num": None, "intlit": None, "int": None, "val": None,
+    "num": None, "intlit": None, "int": None, "val": None, "expo": None,
 }
 KNOWN_CLASSES = {"list", "dict", "Poly", "float", "Stream"}
 
@@ -386,6 +391,23 @@ def tr_call(node, cx):
             if e.ty != "bool" or e.binds:
                 fail(node, "all(...) of non-booleans")
             return E("%s.all (fun %s => %s)" % (src.lean, lam, e.lean), "bool")
+        if n == "reduce" and len(node.args) == 2 and not node.keywords:
+            # reduce(operator.mul, [A] * C + [B]): A, B instances, C an exponent-valued count
+            op, seq = node.args
+            if not (is_attr(op, "operator", "mul") and isinstance(seq, ast.BinOp) and isinstance(seq.op, ast.Add)
+                    and isinstance(seq.left, ast.BinOp) and isinstance(seq.left.op, ast.Mult)
+                    and isinstance(seq.left.left, ast.List) and len(seq.left.left.elts) == 1
+                    and isinstance(seq.right, ast.List) and len(seq.right.elts) == 1 and "expo.kind" in cx.env):
+                fail(node, "reduce(...) that is not reduce(operator.mul, [A] * C + [B])")
+            a = tr_expr(seq.left.left.elts[0], cx)
+            cnt = tr_expr(seq.left.right, cx)
+            last = seq.right.elts[0]
+            b = tr_expr(last, cx)
+            if a.ty != "poly" or b.ty != "poly" or cnt.ty != "expo" or not is_name(last, "self"):
+                fail(node, "reduce(operator.mul, [A] * C + [self]) with A of kind %s, C of kind %s" % (a.ty, cnt.ty))
+            t = cx.fresh()
+            return E("(Py.reduceMul py_mul %s %s)" % (t, b.lean), "polyref",
+                     binds=a.binds + cnt.binds + b.binds + [(t, "(Py.rep %s %s %s)" % (a.lean, cnt.lean, cx.env["expo.kind"].lean))])
         if n == "hasattr" and len(node.args) == 2 and is_name(node.args[0], "self") and \
                 isinstance(node.args[1], ast.Constant) and node.args[1].value == "_hash" and "hashed" in cx.env:
             return E("hashed", "bool")
@@ -395,6 +417,11 @@ def tr_call(node, cx):
             return E("hashed", "bool")      # the stored hash VALUE being 0 is outside the model (TRUSTED)
         fail(node, "call of %s outside the vocabulary" % n)
     if isinstance(f, ast.Attribute):
+        if f.attr == "copy" and not node.args and not node.keywords:
+            x = tr_expr(f.value, cx)
+            if x.ty != "poly":
+                fail(node, ".copy() of kind %s" % x.ty)
+            return E("(py_copy %s none)" % x.lean, "poly", binds=x.binds)
         if is_name(f.value, "it") and f.attr == "chain" and node.args and not node.keywords:
             parts = []
             for a in node.args:
@@ -470,6 +497,9 @@ def tr_eq(a, b, node):
         return "(%s == %s)" % (a.lean, b.lean)
     if all(t in ("int", "intlit") for t in tys):
         a, b = coerce(a, "int", node), coerce(b, "int", node)
+        return "decide (%s = %s)" % (a.lean, b.lean)
+    if "expo" in tys and all(t in ("expo", "intlit") for t in tys):
+        # an exponent (int / bool / float of integral value) against an int literal: equality of the values
         return "decide (%s = %s)" % (a.lean, b.lean)
     if "val" in tys:
         a, b = coerce(a, "val", node), coerce(b, "val", node)
@@ -562,12 +592,22 @@ def tr_expr(node, cx):
     if isinstance(node, ast.BinOp):
         if isinstance(node.op, ast.Div):
             return tr_div(node.left, node.right, cx, node)
+        if isinstance(node.op, ast.Pow):
+            a, b = tr_expr(node.left, cx), tr_expr(node.right, cx)
+            if a.ty in ("num", "intlit") and b.ty == "expo" and "expo.kind" in cx.env:
+                t = cx.fresh()
+                return E(t, "num", binds=a.binds + b.binds + [(t, "(Py.pow %s %s %s)" % (coerce(a, "num").lean, b.lean,
+                                                                                       cx.env["expo.kind"].lean))])
+            fail(node, "** between kinds %s and %s" % (a.ty, b.ty))
         ops = {ast.Add: "+", ast.Sub: "-", ast.Mult: "*"}
         if type(node.op) not in ops:
             fail(node, "binary operator")
         o = ops[type(node.op)]
         a, b = tr_expr(node.left, cx), tr_expr(node.right, cx)
         binds = a.binds + b.binds
+        if "expo" in (a.ty, b.ty) and all(t in ("int", "intlit", "expo") for t in (a.ty, b.ty)):
+            # the VALUE of the exponent arithmetic; its kind (float stays float, bool becomes int) rides on `ek`
+            return E("(%s %s %s)" % (a.lean, o, b.lean), "expo", binds=binds)
         if all(t in ("int", "intlit") for t in (a.ty, b.ty)):
             a, b = coerce(a, "int"), coerce(b, "int")
             return E("(%s %s %s)" % (a.lean, o, b.lean), "int", binds=binds)
@@ -633,7 +673,16 @@ def tr_expr(node, cx):
         a, b = tr_expr(node.body, cx), tr_expr(node.orelse, cx)
         a, b = unify(a, b, node)
         if a.binds or b.binds:
-            fail(node, "effect inside a conditional expression")
+            if not cx.fx:
+                fail(node, "effect inside a conditional expression")
+            # only the chosen branch is evaluated: the effects stay inside their branch
+            def arm(e):
+                inner = "(Except.ok %s)" % e.lean
+                for (t_, ex) in reversed(e.binds):
+                    inner = ex if inner == "(Except.ok %s)" % t_ else "(Except.bind %s (fun %s => %s))" % (ex, t_, inner)
+                return inner
+            t0 = cx.fresh()
+            return E(t0, a.ty, binds=[(t0, "(if %s then %s else %s)" % (t.lean, arm(a), arm(b)))])
         return E("(if %s then %s else %s)" % (t.lean, a.lean, b.lean), a.ty)
     if isinstance(node, ast.Call):
         return tr_call(node, cx)
@@ -1206,6 +1255,17 @@ def translate(src):
         out.append(emit("py_truediv" + suffix, [("self", "ZPoly"), ("other", LEAN_TY[oty])], "poly", True,
                         tr_block(fn.body, cx, "  ", fn), "`Poly.__truediv__`, %s" % what))
 
+    # --- __pow__ with a number exponent (value `other`, kind `ek`); the Poly-exponent prologue is decided away ------
+    fn = the_method(poly, "__pow__")
+    check_sig(fn, ["self", "other"], [])
+    cx = base_cx("polyref", fx=True)
+    cx.env["other"] = E("other", "expo")
+    cx.env["expo.kind"] = E("ek", "marker")
+    out.append(emit("py_pow", [("self", "ZPoly"), ("other", "Int"), ("ek", "ExpKind")], "polyref", True,
+                    tr_block(fn.body, cx, "  ", fn),
+                    "`Poly.__pow__`, other a number of integral value `other` and kind `ek` (int / bool / float); "
+                    "`none` = the object `self` itself"))
+
     head = ["/- GENERATED by harness/props/c07_tr.py from audiolazy/lazy_poly.py (method bodies of `Poly` / `PolyMeta` read with",
             "   `ast`, translated statement by statement into the vocabulary of ALV/Model/C07Zero.lean + ALV/Model/C07Src.lean).",
             "   Do not edit: rewritten on every check.  `ALV.Props.C07.src_*_is_model` prove these definitions equal to the",
@@ -1219,6 +1279,7 @@ TRANSLATED = [
     "Poly.__getitem__", "Poly.__setitem__", "Poly.copy", "Poly.diff", "Poly.integrate", "PolyMeta.__unary__ (-p, +p)",
     "PolyMeta.__rbinary__ (c + p, c - p, c * p)", "PolyMeta.__operators__", "Poly.__add__", "Poly.__sub__", "Poly.__mul__",
     "Poly.__eq__", "Poly.__ne__", "Poly.__truediv__",
+    "Poly.__pow__ (number exponent: int / bool / float of integral value; exponent 0, empty, one term, reduce over copies)",
 ]
 
 
@@ -1249,9 +1310,9 @@ def regenerate(eng=None):
 
 
 NOT_TRANSLATED = {
-    "Poly.__pow__": "`reduce(operator.mul, [self.copy()] * (other - 1) + [self])` (list repetition by a possibly negative / float "
-                    "count, the result may be `self` itself) and `v ** other` raising ZeroDivisionError: the model `powZ` is "
-                    "organised by the number of terms and returns an alias marker; no faithful statement-by-statement image",
+    "Poly.__pow__ with a Poly exponent": "the prologue `if isinstance(other, Poly): ... other = other[0]` re-types `other` from an "
+                                         "instance to a coefficient OR the zero (any value); the model `powPolyZ` reads it through "
+                                         "`getZ` and a classification of the number: tied by sampling only",
     "Poly.__call__": "closure `horner_step` over a re-bound `value`, `reduce`, `try/except TypeError`, `sum(...)` of `**` terms that "
                      "may raise; the model `callZ` is total (it relies on the `value == 0` shortcut): outside the subset",
     "Poly.__hash__": "`hash((frozenset(items), zero))`: the model abstracts CPython's frozenset / tuple hash (TRUSTED)",
@@ -1264,7 +1325,7 @@ THEOREMS = ["src_init_is_model", "src_zero_is_model", "src_zero_set_is_model", "
             "src_setitem_is_model", "src_copy_is_model", "src_diff_is_model", "src_integrate_is_model", "src_unary_is_model",
             "src_rbinary_is_model", "src_operators_is_model", "src_add_is_model", "src_sub_is_model", "src_mul_is_model",
             "src_scalar_is_model", "src_eq_is_model", "src_eq_num_is_model", "src_ne_is_model", "src_truediv_is_model",
-            "src_truediv_num_is_model"]
+            "src_truediv_num_is_model", "src_pow_is_model"]
 
 # deliberate edits of the (normalised: `ast.unparse`) source text; each must change the translation or be refused
 SELFTEST_EDITS = [
@@ -1284,6 +1345,12 @@ SELFTEST_EDITS = [
     ("__setitem__: the zero test is dropped", "if isinstance(coeff, Stream) or coeff != self.zero:", "if isinstance(coeff, Stream) or coeff != 0:"),
     ("integrate: guard on the wrong power", "if -1 in self._data:", "if 1 in self._data:"),
     ("__truediv__: shifts the powers the wrong way", "((k - delta, operator.truediv(v, value))", "((k + delta, operator.truediv(v, value))"),
+    ("__pow__: exponent 1 answers the constant", "if other == 0:\n            return Poly(1, zero=self.zero)",
+     "if other == 1:\n            return Poly(1, zero=self.zero)"),
+    ("__pow__: the `v == 1` shortcut is dropped", "1 if v == 1 else v ** other", "v ** other"),
+    ("__pow__: powers added instead of multiplied", "((k * other, 1 if v == 1", "((k + other, 1 if v == 1"),
+    ("__pow__: one factor too many", "[self.copy()] * (other - 1) + [self]", "[self.copy()] * other + [self]"),
+    ("__pow__: the last factor is a copy too", "[self.copy()] * (other - 1) + [self])", "[self.copy()] * (other - 1) + [self.copy()])"),
 ]
 
 
